@@ -155,6 +155,23 @@ func (e *env) revokeSSHPOP(c *sshCert, serialAsSent, reason string) int {
 	return e.serve(api.SSHRevoke, "POST", "/1.0/ssh/revoke", map[string]any{"serial": serialAsSent, "ott": e.sshpopToken(c, "/1.0/ssh/revoke"), "passive": true, "reasonCode": 1, "reason": reason}, nil, "")
 }
 
+// renewTokenFor mints the token `step ca renew --mtls=false` sends: header x5cInsecure = the
+// certificate chain, signed by the certificate's key, subject = its common name.
+func renewTokenFor(c *x509Cert, inter *x509.Certificate) string {
+	chain := []string{base64.StdEncoding.EncodeToString(c.crt.Raw), base64.StdEncoding.EncodeToString(inter.Raw)}
+	so := new(jose.SignerOptions).WithType("JWT").WithHeader("x5cInsecure", chain)
+	sig := must(jose.NewSigner(jose.SigningKey{Algorithm: jose.ES256, Key: c.key}, so))
+	now := time.Now()
+	claims := map[string]any{"iss": "step-ca-client/1.0", "sub": c.crt.Subject.CommonName, "aud": fixture.Audience("/1.0/renew"),
+		"iat": now.Unix(), "nbf": now.Add(-time.Second).Unix(), "exp": now.Add(5 * time.Minute).Unix(), "jti": must(randutil.Hex(16))}
+	return must(jose.Signed(sig).Claims(claims).CompactSerialize())
+}
+
+// renewByToken: POST /1.0/renew without a client certificate, Authorization: Bearer <renew token>
+func (e *env) renewByToken(c *x509Cert) int {
+	return e.serve(api.Renew, "POST", "/1.0/renew", nil, nil, renewTokenFor(c, e.ca.MiniCA.Intermediate))
+}
+
 func (e *env) renew(c *x509Cert) int { return e.serve(api.Renew, "POST", "/1.0/renew", nil, c.crt, "") }
 
 func (e *env) rekey(c *x509Cert) int {
